@@ -115,8 +115,9 @@ def findNegativeCycle (v : View) (s : Nat) : FncRes :=
   let st := bfRelax v s
   match relaxables v st.d with
   | [] => .none
-  | (_, j) :: _ =>
-    match fncLoop st.p j (v.g.nodes.length + 2) j [] [] with
+  | (i, j) :: _ =>
+    -- (repaired code, D15) the detected relaxation is carried out first: `predecessor[ix(j)] = Some(i)`
+    match fncLoop (tset st.p j i) j (v.g.nodes.length + 2) j [] [] with
     | none => .fuel
     | some path => if path.isEmpty then .none else .some path.reverse
 
